@@ -10,7 +10,7 @@ from typing import Any, get_args
 from typing import Generic
 from typing import NamedTuple
 
-from geneticengine.grammar.decorators import get_gengy
+from geneticengine.grammar.decorators import get_gengy, is_builtin
 from geneticengine.grammar.utils import is_metahandler
 from geneticengine.grammar.utils import all_init_arguments_typed, is_union
 from geneticengine.grammar.utils import get_arguments
@@ -351,12 +351,13 @@ class Grammar:
         for weight in weights:
             assert weights[weight] >= 0 and weights[weight] <= 1
 
+        # Store the new weight on every registered class, not only on the listed subtypes: an abstract
+        # class registered through its subclasses is a production of its parent too. Builtins have no dict.
+        for node in weights:
+            if not is_builtin(node):
+                get_gengy(node)["weight"] = weights[node]
         starting_symbol = self.starting_symbol
-        starting_symbol.__dict__["__gengy__"]["weight"] = weights[starting_symbol]
-        nodes = list()
-        for node in self.considered_subtypes:
-            node.__dict__["__gengy__"]["weight"] = weights[node]
-            nodes.append(node)
+        nodes = list(self.considered_subtypes)
         self.__init__(starting_symbol, nodes, self.expansion_depthing)
         self.register_type(starting_symbol)
         self.preprocess()
@@ -475,6 +476,6 @@ def extract_grammar(
     g = Grammar(starting_symbol, considered_subtypes, expansion_depthing)
     g.register_type(starting_symbol)
     g.preprocess()
-    if any(["weight" in get_gengy(p) for p in considered_subtypes]):
+    if any(["weight" in get_gengy(p) for p in g.all_nodes]):
         g.update_weights(1, g.get_weights())
     return g
